@@ -11,3 +11,6 @@ import LdkModel.Props.C20
 #print axioms Ldk.C20.interrupted_reorg_example
 #print axioms Ldk.C20.cache_miss_safe
 #print axioms Ldk.C20.cache_miss_safe_poll
+#print axioms Ldk.C20.error_keeps_prefix
+#print axioms Ldk.C20.error_then_resume
+#print axioms Ldk.C20.listeners_converge
